@@ -15,6 +15,9 @@ type ChanObj struct {
 	elemT    types.Type
 	cap      int
 	buf      []Value
+	bufEv    []int // happens-before: send event of each buffered value
+	parkedEv []int
+	closeEv  int
 	closed   bool
 	parked   []Value // values offered by environment senders blocked on this channel
 	sink     bool    // environment consumer always ready; delivered values are logged
@@ -34,7 +37,7 @@ type ChanObj struct {
 
 func (e *Engine) newChan(elemT types.Type, cap int) *ChanObj {
 	e.nextObj++
-	return &ChanObj{id: e.nextObj, elemT: elemT, cap: cap}
+	return &ChanObj{id: e.nextObj, elemT: elemT, cap: cap, closeEv: -1}
 }
 
 // ChanVAny wraps a channel object as an `any` holding a bidirectional channel value.
@@ -72,24 +75,41 @@ func (c *ChanObj) sendReady() bool {
 func (e *Engine) doRecv(c *ChanObj, elemT types.Type) (Value, bool) {
 	var v Value
 	ok := true
+	from := -1
+	pop := func(evs *[]int) {
+		if len(*evs) > 0 {
+			from = (*evs)[0]
+			*evs = (*evs)[1:]
+		}
+	}
 	switch {
 	case len(c.buf) > 0:
 		v = c.buf[0]
 		c.buf = c.buf[1:]
+		pop(&c.bufEv)
 		if len(c.parked) > 0 {
 			c.buf = append(c.buf, c.parked[0])
 			c.parked = c.parked[1:]
+			if len(c.parkedEv) > 0 {
+				c.bufEv = append(c.bufEv, c.parkedEv[0])
+				c.parkedEv = c.parkedEv[1:]
+			}
 		}
 	case len(c.parked) > 0:
 		v = c.parked[0]
 		c.parked = c.parked[1:]
+		pop(&c.parkedEv)
 	case c.closed:
 		v = e.zero(elemT)
 		ok = false
+		from = c.closeEv
 	default:
 		panic("doRecv on non-ready channel")
 	}
 	c.recvs++
+	if e.hb.on {
+		e.hbEdge(from, e.hbAdd('r', c, "", "recv"))
+	}
 	e.tracef("recv %s ok=%v", c, ok)
 	if c.onRecv.Fn != nil {
 		e.callValue(c.onRecv, IfaceV{T: elemT, V: v}, e.tb.Bool(ok))
@@ -123,6 +143,9 @@ func (e *Engine) doSend(c *ChanObj, v Value, pos string) {
 		c.log = append(c.log, v)
 	default:
 		c.buf = append(c.buf, v)
+		if e.hb.on {
+			c.bufEv = append(c.bufEv, e.hbAdd('s', c, pos, "send"))
+		}
 	}
 }
 
@@ -224,6 +247,7 @@ func (e *Engine) chanClose(c *ChanObj) {
 		e.callValue(c.onClose)
 	}
 	c.closed = true
+	c.closeEv = e.hbAdd('c', c, "", "close")
 	if e.termWatch[c] {
 		e.termSignalled = true
 	}
